@@ -142,6 +142,27 @@ impl<E: Engine> LowRateEncoder<E> {
 }
 
 // ======================================================================
+// LowRateEncoder / LowRateDecoder - VERIFICATION HOOKS
+
+#[cfg(feature = "verif-hooks")]
+impl<E: Engine> LowRateEncoder<E> {
+    /// Digest of the complete concrete state.
+    #[doc(hidden)]
+    pub fn verif_digest(&self) -> u64 {
+        self.work.verif_digest()
+    }
+}
+
+#[cfg(feature = "verif-hooks")]
+impl<E: Engine> LowRateDecoder<E> {
+    /// Digest of the complete concrete state.
+    #[doc(hidden)]
+    pub fn verif_digest(&self) -> u64 {
+        self.work.verif_digest()
+    }
+}
+
+// ======================================================================
 // LowRateDecoder - PUBLIC
 
 /// Reed-Solomon decoder using only low rate.
